@@ -334,6 +334,35 @@ def run_user(case, workdir, rec):
         shutil.rmtree(out, ignore_errors=True)
     if tree_digest(path) != before:
         rec.fail("input_modified", {}, "")
+    # LAST (it changes the input): a Chef is constructed, then ANOTHER TIME STEP of the same run is copied over the plotfile (every
+    # file overwritten in place: same mesh, layout and sizes, other values and other min / max tables), then the Chef cooks - the
+    # output holds the recipe of what the plotfile holds now, with the extrema of what was written
+    d2 = dict(desc, seed=desc.get("seed", 0) + 778, time=desc.get("time", 0.5) + 0.125)
+    if isinstance(desc.get("payload"), list):
+        d2["payload"] = [("signed" if p_.startswith("pos") else "pos") + ("+negzero" if p_.endswith("+negzero") else "") for p_ in desc["payload"]]
+    tmp = os.path.join(workdir, "next_step")
+    ref2 = write_plotfile(d2, tmp)
+    for serial in (True, False):
+        out = os.path.join(workdir, "ck_replaced")
+        with vpool.controlled():
+            def later():
+                c = Chef(path, recipe=os.path.join(workdir, "R3.py"), outfile=out, serial=serial, kept_fields="Z temp")
+                for root_, dirs_, files_ in os.walk(tmp):
+                    for fn_ in files_:
+                        src_ = os.path.join(root_, fn_)
+                        with open(src_, "rb") as fi, open(os.path.join(path, os.path.relpath(src_, tmp)), "wb") as fo:
+                            fo.write(fi.read())
+                c.cook()
+            st, val = call(later)
+        rec.exe([dh, "time_step_replaced", serial], nontrivial=True, trans=2)
+        sub = {"history": "Chef constructed, then another time step copied over the plotfile in place, then cook()", "serial": serial, "recipe": "R3", "kept": "Z temp"}
+        if st == "exc":
+            rec.fail("history_raised", sub, exc_text(val))
+        else:
+            pp = common_output_checks(rec, sub, out, ref2)
+            if pp is not None:
+                check_components(rec, sub, pp, ref2, names, lambda lv, b: USER["R3"][2](ref2.data[lv][b], fidx), USER["R3"][1], ["Z", "temp"])
+        shutil.rmtree(out, ignore_errors=True)
     rec.sample({"desc": desc, "recipes": sorted(USER), "kept": KEPT})
 
 
